@@ -35,6 +35,21 @@ def in_same_cfg(a, x):
     return False
 
 
+def detached_container(ty, cfg: bool):
+    """A finished identity container over one input of type ty, in its own Hugr."""
+    from hugr.build.cfg import Cfg
+    from hugr.build.dfg import Dfg
+    if cfg:
+        c = Cfg(ty)
+        with c.add_entry() as e:
+            e.set_single_succ_outputs(*e.inputs())
+        c.branch_exit(e[0])
+        return c, "insert_cfg"
+    d = Dfg(ty)
+    d.set_outputs(*d.inputs())
+    return d, "insert_nested"
+
+
 def attempt(sim: BuilderSim, a, kind):
     """Returns None if the fault is not applicable here, else (callable, documented exception class names or None when none is documented, description)."""
     ctx = sim.ctx
@@ -62,7 +77,12 @@ def attempt(sim: BuilderSim, a, kind):
             return None
         x = ch.pick(others, "fault-src-actor")
         w = ch.pick([w for w in x.pool if not w.lin], "fault-wire")
-        how = ch.draw(3, "fault-entry")
+        how = ch.draw(5, "fault-entry")
+        if how >= 3:
+            # the insert_* entry points: a finished, detached container is attached with the offending wire as its input
+            det, nm = detached_container(w.ty, how == 4)
+            fn = a.b.insert_cfg if how == 4 else a.b.insert_nested
+            return (lambda: fn(det, w.wire)), exp, f"{nm}(detached, wire from actor {x.id})"
         if how == 0:
             return (lambda: a.b.add_op(t.ops.Noop(), w.wire)), exp, f"add_op(Noop, wire from actor {x.id})"
         if how == 1:
@@ -172,6 +192,10 @@ def attempt(sim: BuilderSim, a, kind):
         if not vis:
             return None
         n = ch.pick(vis, "fault-node")
+        if ch.coin(1, 3, "fault-via-insert"):
+            det, nm = detached_container(t.B, ch.coin(1, 2, "fault-insert-cfg"))
+            fn = a.b.insert_cfg if nm == "insert_cfg" else a.b.insert_nested
+            return (lambda: fn(det, n)), None, f"{nm}(detached, <Const/Func node out 0>)"
         return (lambda: a.b.add_op(t.ops.Noop(), n)), None, "add_op(Noop, <Const/Func node out 0>)"
     if kind == "int-wire-untracked-builder":
         if not isinstance(a, Actor) or isinstance(a.b, TrackedDfg):
@@ -270,6 +294,15 @@ def run(ctx):
             if isinstance(a.b, TrackedDfg) and a.b.inputs() and not a.b.tracked:
                 a.b.track_inputs()
                 a.b.untrack_wire(0)
+                if ch.coin(1, 2, "many-tracked-wires"):
+                    # size class: dozens of indices handed out, most of them freed again (freed for good)
+                    w0 = a.b.inputs()[0]
+                    n = 17 + ch.draw(30, "n-tracked")
+                    idxs = [a.b.track_wire(w0) for _ in range(n)]
+                    for i in idxs:
+                        if ch.coin(2, 3, "untrack-it"):
+                            a.b.untrack_wire(i)
+                    ctx.probe("many_indices_most_of_them_untracked")
         att = attempt(sim, a, kind)
         if att is None and steps >= at + 4:
             # the scheduled actor cannot host this fault: let the scheduler's choice fall on another one
@@ -302,8 +335,9 @@ def run(ctx):
             ctx.violate("accepted", kind, {"call": desc, "actor": getattr(a, "kind", type(a).__name__)})
         elif expected is not None and not any(x in mro for x in expected):
             ctx.violate("wrong-exception", f"{kind}:{outcome}", {"call": desc, "expected": expected})
-        if not ctx.violations and outcome != "returned" and kind in ("no-sibling-ancestor", "outside-cfg") and ch.coin(1, 3, "complete-the-program-after"):
-            # the refused call left an operation without its inputs behind; the caller catches the error and finishes
+        if not ctx.violations and outcome != "returned" and kind in ("no-sibling-ancestor", "outside-cfg") and not desc.startswith("insert_") and ch.coin(1, 3, "complete-the-program-after"):
+            # the refused call left an operation without its inputs behind (not the insert_* entry points: what they leave
+            # behind is a finished container); the caller catches the error and finishes
             # the program: what is serialised then still contains that incomplete operation
             state["finish"] = True
             return False
